@@ -286,6 +286,7 @@ impl<'a> Ctx<'a> {
 						0x10
 					}
 				}
+				"unk" => e.x as u8,
 				_ => self.built.ev_bufs[k][0],
 			};
 			if code != want_code {
@@ -295,8 +296,10 @@ impl<'a> Ctx<'a> {
 				out.push(viol("inc_bytes_read", &cls, "mismatch", format!("after event {}: {} vs {}", k + 1, st.bytes_read(), consumed(r.position()))));
 				return;
 			}
-			let (nrows, closed) = (self.beh.steps[k][0], self.beh.steps[k][1]);
 			let frames = st.frames();
+			// (behaviours of environments that do not export the per-step row counts: only the byte accounting,
+			// the returned code and the monotone row count are checked per step)
+			let (nrows, closed) = if self.beh.steps.len() > k { (self.beh.steps[k][0], self.beh.steps[k][1]) } else { (frames.len(), 0) };
 			if frames.len() != nrows {
 				out.push(viol("inc_rows", &cls, "mismatch", format!("after event {}: {} rows, model {}", k + 1, frames.len(), nrows)));
 				return;
